@@ -253,21 +253,25 @@ Fixpoint run_obs (k : nat) (t : tree) (ops : list op) : list (nat * list (list n
   | o :: ops' => let '(t', r) := step t o in (res_code r, obs_all k t') :: run_obs k t' ops'
   end.
 
-(* ---- comparison helpers for the tie *)
-Fixpoint list_eqb {A} (eq : A → A → bool) (l1 l2 : list A) : bool :=
-  match l1, l2 with
-  | [], [] => true
-  | x :: l1', y :: l2' => eq x y && list_eqb eq l1' l2'
-  | _, _ => false
+(* ---- comparison helpers for the tie: the implementation's observation after every op is
+   compared through a 61-bit polynomial digest (keeps cases.v small); on a mismatch the check
+   asks for the model's full observation of that step. *)
+Definition hmod : N := 2305843009213693951%N.
+Definition hstep (h : N) (x : nat) : N := ((h * 1000003 + N.of_nat x + 1) mod hmod)%N.
+Definition hash_list (h : N) (l : list nat) : N := foldl hstep (hstep h (length l)) l.
+Definition hash_obs (r : nat) (o : list (list nat)) : N :=
+  foldl hash_list (hstep (hstep 7%N r) (length o)) o.
+Fixpoint run_hash (k : nat) (t : tree) (ops : list op) : list N :=
+  match ops with
+  | [] => []
+  | o :: ops' => let '(t', r) := step t o in hash_obs (res_code r) (obs_all k t') :: run_hash k t' ops'
   end.
-Definition step_eqb (a b : nat * list (list nat)) : bool :=
-  Nat.eqb a.1 b.1 && list_eqb (list_eqb Nat.eqb) a.2 b.2.
-Fixpoint first_diff (i : nat) (xs ys : list (nat * list (list nat))) : option nat :=
+Fixpoint first_diff (i : nat) (xs ys : list N) : option nat :=
   match xs, ys with
   | [], [] => None
-  | x :: xs', y :: ys' => if step_eqb x y then first_diff (S i) xs' ys' else Some i
+  | x :: xs', y :: ys' => if N.eqb x y then first_diff (S i) xs' ys' else Some i
   | _, _ => Some i
   end.
-(* a case: universe size, ops, what the implementation showed after every op *)
-Definition case_diff (c : nat * list op * list (nat * list (list nat))) : option nat :=
-  let '(k, ops, expected) := c in first_diff 0 (run_obs k empty_tree ops) expected.
+(* a case: universe size, ops, digest of what the implementation showed after every op *)
+Definition case_diff (c : nat * list op * list N) : option nat :=
+  let '(k, ops, expected) := c in first_diff 0 (run_hash k empty_tree ops) expected.
